@@ -25,7 +25,7 @@ func planC09(c *Ctx) epochPlan {
 	} else {
 		pl.scenarios = buildScenarios(len(cfgRows), allPolicies, seeds, modes, fits, true)
 		pl.maxDev = 1
-		pl.deepScenarios = buildScenarios(quickCfgRows, []string{"A", "R1"}, seeds, modes, fits, false)
+		pl.deepScenarios = deepScenarios(seeds, modes, fits)
 		pl.deepDev = 2
 		pl.shards = 16
 	}
@@ -191,7 +191,7 @@ func c09Shapes(c *Ctx) {
 				ageIdx[i] = v % len(c09AgeMenu)
 				v /= len(c09AgeMenu)
 			}
-			for fit := 0; fit <= numLandscapes; fit++ {
+			for fit := 0; fit <= numLandscapes+1; fit++ {
 				for _, st := range stolen {
 					for _, drop := range []int{1, 15} {
 						for surv := range c09Surv {
